@@ -1,5 +1,5 @@
 """Property -> rules registry.  Rules are added here as they are built; a property without rules is not claimed."""
-from .rules import determinism, panics, wiring, traversal, annot, shape
+from .rules import determinism, panics, wiring, traversal, annot, shape, hygiene, enums
 
 
 def _thorough_only(rule):
@@ -12,6 +12,16 @@ def _thorough_only(rule):
 
 
 PROPS = {
+    "C02": {
+        "rules": [hygiene.rule_hyg, hygiene.rule_seed, enums.rule_enum_maps({"fun2core"}), enums.rule_enum_surface,
+                  traversal.rule_trav(["fun::traits::used_binders::UsedBinders", "fun2core::compile::Compile"])],
+        "text": "Hygiene and naming clauses of the Fun->Core translation, decided for every program at once: (R-HYG) the incoming "
+                "consumer is never placed under a binder copied verbatim from the source; (R-SEED) fresh names are seeded from the "
+                "parameters and from all binders of the body before the first fresh name is drawn, lifted labels come from "
+                "fresh_name over all definition names, no literal names; (R-TRAV) UsedBinders and Compile visit every subterm; "
+                "(R-ENUM) comparison sorts and operators are translated name-preservingly from token to Core.",
+        "assumptions": ["that the CPS translation computes the right value/effect order is not decided"],
+    },
     "C03": {
         "rules": [traversal.rule_trav(["scc_core_lang::traits::substitution::Subst", "scc_core_lang::traits::substitution::SubstVar",
                                    "scc_core_lang::traits::uniquify::Uniquify", "scc_core_lang::traits::focus::Focusing",
